@@ -10,23 +10,39 @@ open Gen.Config CSem Lemmas.Config Spec.ConfigDomain
 set_option maxRecDepth 8000
 
 /-- **Main theorem (every value of every member; no sampling).** For any prior state `s` of the handle and any
-    configuration `c` whatsoever, `set_default_configuration_parameters; copy_api_from_app; verify_settings`
-    returns EB_ErrorNone exactly when every conjunct of the hand-written domain holds. -/
-theorem accept_iff_codeDomain (s : Scs) (c : Cfg) :
+    configuration `c` whose members hold values of their C types (`WellTyped`: every `uint32_t` member in
+    [0, 2^32), every array of its declared length, ...), `set_default_configuration_parameters; copy_api_from_app;
+    verify_settings` returns EB_ErrorNone exactly when every conjunct of the hand-written domain holds.  The domain is
+    stated in plain integer arithmetic over the members (Spec/ConfigDomain.lean); no conjunct refers to generated code,
+    so a change of any formula in the C code (effective frame rate, default intra period, look-ahead defaulting and
+    capping, HME sums, tile product, the manual-prediction-structure loop, ...) breaks this theorem. -/
+theorem accept_iff_codeDomain (s : Scs) (c : Cfg) (hs : s.WellTyped) (hc : c.WellTyped) :
     setParameterAccepts s c = true ↔ CodeDomain s c :=
-  accept_iff_codeDomain_aux s c
+  accept_iff_codeDomain_aux s c hs hc
+
+/-- Non-vacuity of the typing hypotheses: the fresh-handle state and the library defaults satisfy them. -/
+theorem fresh_state_wellTyped : (({} : Scs)).WellTyped := by constructor <;> decide
+theorem defaults_wellTyped : (dfltWH 64 64).WellTyped := by constructor <;> decide
 
 /-- Rejection is always attributable to a rule: a rejected configuration violates at least one conjunct. -/
-theorem reject_iff_not_codeDomain (s : Scs) (c : Cfg) :
+theorem reject_iff_not_codeDomain (s : Scs) (c : Cfg) (hs : s.WellTyped) (hc : c.WellTyped) :
     setParameterAccepts s c = false ↔ ¬ CodeDomain s c := by
-  rw [← accept_iff_codeDomain]; simp
+  rw [← accept_iff_codeDomain s c hs hc]; simp
+
+/-- **Manual prediction structures, for every list of entries**: the translated validation loops of verify_settings
+    (nested `for` loops with a per-entry flag and a write into the configuration copy) accept exactly the structures
+    described by `validManualPredStruct` (proved by induction over the loop, `Lemmas.Config.block92_spec`). -/
+theorem manual_pred_struct_rule (s : Scs) (c : Cfg) (hs : s.WellTyped) (hc : c.WellTyped) :
+    rej92 s c = false ↔
+      (c.enable_manual_pred_struct = 0 ∨ validManualPredStruct c.manual_pred_struct_entry_num c.pred_struct) :=
+  rej92_iff s c hs hc
 
 /-- The hand-written domain is executable: its Boolean form (what the driver evaluates on concrete configurations to
     decide whether the real API deviates from the specification) is equivalent to it. -/
 theorem spec_executable (s : Scs) (c : Cfg) : codeDomainB s c = true ↔ CodeDomain s c := codeDomainB_iff s c
 
 /-- Non-vacuity: the library defaults with a 64x64 picture are in the domain. -/
-example : CodeDomain {} (dfltWH 64 64) := (accept_iff_codeDomain _ _).1 (by decide)
+example : CodeDomain {} (dfltWH 64 64) := (accept_iff_codeDomain _ _ fresh_state_wellTyped defaults_wellTyped).1 (by decide)
 
 /-! ### Places where the code's domain differs from the documented one (known findings F10).
     Each is a concrete configuration (library defaults, 64x64, plus the named member). -/
@@ -58,7 +74,42 @@ theorem dev_altref_nframes_13_accepted : setParameterAccepts {} { dfltWH 64 64 w
 /-- The picture size is validated after truncation to 16 bits: width 65600 (= 65536 + 64) is accepted. -/
 theorem dev_width_truncated_to_16_bits : setParameterAccepts {} (dfltWH 65600 64) = true := by decide
 
+/-- FrameRate below 1000 is taken as plain fps ("an integer number between 1 and 60", max 240 fps) but only compared with
+    240 << 16: 241 is accepted. -/
+theorem dev_frame_rate_241_accepted : setParameterAccepts {} { dfltWH 64 64 with frame_rate := 241 } = true := by decide
+/-- 240001/1000 = 240.001 fps exceeds the documented maximum; `(num << 8) / den` truncates it to exactly 240.0. -/
+theorem dev_frame_rate_240_001_accepted :
+    setParameterAccepts {} { dfltWH 64 64 with frame_rate_numerator := 240001, frame_rate_denominator := 1000 } = true := by decide
+/-- `num << 8` is a 32-bit shift: 16777241/1 fps (= 2^24 + 25) is validated as 25 fps. -/
+theorem dev_frame_rate_numerator_wraps :
+    setParameterAccepts {} { dfltWH 64 64 with frame_rate_numerator := 16777241, frame_rate_denominator := 1 } = true := by decide
+/-- RateControlMode 1 with IntraPeriod 200 (both inside their documented ranges, LookAheadDistance left at its default):
+    the default look-ahead becomes the intra period, which exceeds 120, and the configuration is rejected. -/
+theorem dev_default_look_ahead_exceeds_120 :
+    setParameterAccepts {} { dfltWH 64 64 with rate_control_mode := 1, intra_period_length := 200 } = false := by decide
+/-- HighBitDepthModeDecision is documented `[0-2]`; with an 8-bit encoder it is not validated at all. -/
+theorem dev_hbd_mode_decision_unchecked_8bit :
+    setParameterAccepts {} { dfltWH 64 64 with enable_hbd_mode_decision := 100 } = true := by decide
+/-- "Invalid manual prediction structure entry number [1 - 32]": 0 entries are accepted (the real library then divides
+    by zero in prediction_structure_group_ctor). -/
+theorem dev_manual_pred_struct_zero_entries :
+    setParameterAccepts {} { dfltWH 64 64 with enable_manual_pred_struct := 1, manual_pred_struct_entry_num := 0 } = true := by decide
+/-- "all ref frames in list1 should not exceed minigop end": the test is an `int32_t` subtraction, -2^31 passes it. -/
+theorem dev_manual_pred_struct_list1_overflow :
+    setParameterAccepts {} { dfltWH 64 64 with enable_manual_pred_struct := 1, manual_pred_struct_entry_num := 1, pred_struct := [{ ref_list0 := [1, 0, 0, 0], ref_list1 := [-2147483648, 0, 0, 0] }] ++ List.replicate 31 {} } = true := by decide
+/-- The level-1/2 HME *height* areas are summed over the *width* region count: with one width region and two height
+    regions of 300 each (total 600 > 480) the configuration is accepted. -/
+theorem dev_hme_height_summed_over_width_regions :
+    setParameterAccepts {} { dfltWH 64 64 with number_hme_search_region_in_width := 1, hme_level0_total_search_area_width := 32, hme_level1_search_area_in_height_array := [300, 300] } = true := by decide
+
 /-! ### Memory safety of the copy that precedes validation (finding F4) -/
+
+/-- A manual prediction structure with a negative entry count (or more than 32) makes the `EB_MEMCPY` of copy_api_from_app
+    run outside both arrays, before anything is validated. -/
+theorem copy_out_of_bounds_pred_struct :
+    setParameterOob {} { dfltWH 64 64 with enable_manual_pred_struct := 1, manual_pred_struct_entry_num := 33 } = true ∧
+    setParameterOob {} { dfltWH 64 64 with enable_manual_pred_struct := 1, manual_pred_struct_entry_num := -1 } = true := by
+  constructor <;> decide
 
 /-- With the documented HME region counts (≤ 2) and no manual prediction structure the copy stays inside the arrays. -/
 theorem copy_in_bounds (s : Scs) (c : Cfg) (hs : s.oob = 0) (hm : c.enable_manual_pred_struct = 0)
@@ -66,7 +117,7 @@ theorem copy_in_bounds (s : Scs) (c : Cfg) (hs : s.oob = 0) (hm : c.enable_manua
     setParameterOob s c = false := by
   have hw' : ¬ (c.number_hme_search_region_in_width > 2) := by omega
   have hh' : ¬ (c.number_hme_search_region_in_height > 2) := by omega
-  simp [setParameterOob, hm, hw', hh', hs]
+  simp [setParameterOob, h_verify_settings_block92, hm, hw', hh', hs]
 
 /-- `copy_api_from_app` runs before `verify_settings`: a region count of 3 writes outside the two-entry arrays of the
     sequence control set, whether or not the configuration is later rejected. -/
